@@ -58,6 +58,12 @@ def search_group(seed, n):
         for k in range(n):
             a, b, c = rand_pose(rng, cname), rand_pose(rng, cname), rand_pose(rng, cname)
             sc = (1 + max(float(np.max(np.abs(np.asarray(v)))) for v in (a, b, c))) ** 3
+            # history: what a call returned belongs to the caller (poses are mutable arrays; building a pose by filling
+            # in `identity()` is ordinary use): writing into earlier results must not change later answers
+            tmp = cls.identity()
+            tmp[:] = np.asarray(c)
+            for made in (a.inverse, a + b, a - b, a.copy()):
+                np.asarray(made)[...] = 7.25
             checks = [
                 ("oplus_is_matrix_product", H(a + b), H(a) @ H(b)),
                 ("ominus_is_inverse_oplus", H(a - b), np.linalg.inv(H(b)) @ H(a)),
